@@ -6,8 +6,20 @@ import (
 	"go/types"
 	"strings"
 
+	"golang.org/x/tools/go/ssa"
+
 	"symgo/smt"
 )
+
+// findMethod returns the exported method name of T's method set, or nil.
+func (sh *Shared) findMethod(T types.Type, name string) *ssa.Function {
+	ms := sh.prog.MethodSets.MethodSet(T)
+	sel := ms.Lookup(nil, name)
+	if sel == nil {
+		return nil
+	}
+	return sh.prog.MethodValue(sel)
+}
 
 var tokenADD = token.ADD
 
@@ -71,15 +83,15 @@ func (i *interpreter) formatOperand(fr *frame, spec string, verb byte, arg value
 	}
 	// Formatter, error, Stringer on the dynamic type
 	if dynT != nil {
-		if m := i.sh.prog.LookupMethod(dynT, nil, "Format"); m != nil && m.Signature.Params().Len() == 2 {
+		if m := i.sh.findMethod(dynT, "Format"); m != nil && m.Signature.Params().Len() == 2 {
 			return i.callFormatter(fr, m, dyn, spec, verb)
 		}
 		if verb == 'v' || verb == 's' || verb == 'q' {
-			if m := i.sh.prog.LookupMethod(dynT, nil, "Error"); m != nil && m.Signature.Params().Len() == 0 {
+			if m := i.sh.findMethod(dynT, "Error"); m != nil && m.Signature.Params().Len() == 0 {
 				s := i.call(fr, 0, m, []value{dyn})
 				return i.formatOperand(fr, spec, verb, s)
 			}
-			if m := i.sh.prog.LookupMethod(dynT, nil, "String"); m != nil && m.Signature.Params().Len() == 0 && m.Signature.Results().Len() == 1 {
+			if m := i.sh.findMethod(dynT, "String"); m != nil && m.Signature.Params().Len() == 0 && m.Signature.Results().Len() == 1 {
 				s := i.call(fr, 0, m, []value{dyn})
 				return i.formatOperand(fr, spec, verb, s)
 			}
@@ -221,7 +233,7 @@ func (i *interpreter) sprint(fr *frame, args []value, ln bool) value {
 
 // callFormatter runs a guest Format(fmt.State, rune) method against an executor-provided
 // fmt.State (the model type hash.ModelFmtState, defined in the overlay of package hash).
-func (i *interpreter) callFormatter(fr *frame, m value, recv value, spec string, verb byte) value {
+func (i *interpreter) callFormatter(fr *frame, m *ssa.Function, recv value, spec string, verb byte) value {
 	pkg := i.sh.prog.ImportedPackage("github.com/arr-ai/hash")
 	if pkg == nil || pkg.Type("ModelFmtState") == nil {
 		panic(unsupported("Formatter operand but no ModelFmtState available"))
